@@ -321,11 +321,19 @@ class _Budget(Exception):
     pass
 
 
-def execute(nprog, nval, bits, reads=None, horizon=5000):
+_KIND_NAME = {"X": "exit", "Y": "cycle", "R": "return"}
+
+
+def execute(nprog, nval, bits, reads=None, horizon=5000, watch=None,
+            events=None):
     """Runs the numbered program with trip count `nval` and the condition
     elements in `bits` (set of (q,i1,i2)) positive.  Returns the final
     counters a(1..AMAX).  `reads` (list) receives every input element in the
-    order of its first evaluation."""
+    order of its first evaluation.  watch = (sequence object, start, stop):
+    `events` receives the kind of every control transfer that leaves that
+    statement range other than by running off its end ('exit', 'cycle',
+    'return', 'goto-out') or enters it other than at its first statement
+    ('goto-in')."""
     cvals = {}
     avals = [0] * AMAX
     seen = set()
@@ -337,16 +345,28 @@ def execute(nprog, nval, bits, reads=None, horizon=5000):
 
     def run_seq(seq, start=0):
         pos = start
+        watched = watch is not None and seq is watch[0]
         while pos < len(seq):
             try:
                 run_stmt(seq[pos])
             except _Jump as jmp:
+                inside = watched and watch[1] <= pos < watch[2]
                 if jmp.kind != "G":
+                    if inside:
+                        events.append(_KIND_NAME[jmp.kind])
                     raise
                 # a GOTO: continue at the label if it is in this sequence
                 tgt = [i for i, st in enumerate(seq) if st["k"] == "T"]
                 if not tgt:
+                    if inside:
+                        events.append("goto-out")
                     raise
+                if watched:
+                    lands_in = watch[1] <= tgt[0] < watch[2]
+                    if inside and not lands_in:
+                        events.append("goto-out")
+                    elif lands_in and not inside:
+                        events.append("goto-in")
                 pos = tgt[0]
                 continue
             pos += 1
@@ -503,3 +523,32 @@ def escapes(prog, rng):
     if "T" in inside and "G" not in inside and "G" in allk:
         found.add("goto-in")
     return sorted(found)
+
+
+def bypasses(prog, rng, nval, bits):
+    """Kinds of the control transfers that, in the run (nval, bits), leave the
+    statement range `rng` other than through its end or enter it other than
+    through its start, in execution order (reference interpreter; used for
+    signatures and messages only, never for the verdict)."""
+    nprog = number(prog)
+    path, start, stop = rng
+    seq = nprog
+    for pos, slot in path:
+        st = seq[pos]
+        seq = st["body"] if st["k"] == "L" else (st["then"] if slot == 1
+                                                 else st["else"])
+    events = []
+    execute(nprog, nval, frozenset(tuple(b) for b in bits),
+            watch=(seq, start, stop), events=events)
+    return events
+
+
+def textual_order(ranges_in_application_order):
+    """Indices of the regions in the order in which their start calls appear
+    in the source text (outer region first).  Later applied regions wrap
+    earlier ones when the ranges coincide."""
+    def sort_key(num):
+        path, start, stop = ranges_in_application_order[num]
+        pos = tuple(x for step in path for x in step) + (start,)
+        return (pos, -stop, -num)
+    return sorted(range(len(ranges_in_application_order)), key=sort_key)
